@@ -74,7 +74,7 @@ def check_failures(doc, fails, v, R):
 
 
 # a document with many blocks of many kinds, scanned in the same invocation *before* the document under
-# test (every fourth case): rule objects live for the whole invocation, so whatever they forget to reset
+# test (every second group D case): rule objects live for the whole invocation, so whatever they forget to reset
 # in starting_new_file meets the next file
 HISTORY = ("# History\n\nfirst paragraph\n\nsecond paragraph\n\n- item\n- item\n\nthird\tparagraph\n\n[ref]: /u\n\n## Two\n\n"
            "fourth `code` *e* [ref]\n\n```text\ncode\n```\n\n> quote\n\n1. one\n1. two\n\nfifth paragraph   \n\n***\n\nlast <b>html</b>\n")
@@ -143,7 +143,8 @@ def run_items(items, job):
             detail.setdefault("failures", {})[name] = fails[:40]
         if skip:
             continue
-        if idx % 4 == 0 and "all" in detail.get("failures", {}) and doc:
+        grp_d = str(key).startswith(("Z10:", "Z11:", "Z12:")) or (isinstance(it, dict) and str(it.get("case", "")).startswith(("Z10:", "Z11:", "Z12:")))
+        if grp_d and idx % 2 == 0 and "all" in detail.get("failures", {}) and doc:  # group D documents only (earlier baselines predate this)
             sb.clear_files()
             pa = sb.write_bytes("a_history.md", HISTORY.encode("utf-8"))
             pb = sb.write_bytes("b_doc.md", doc.encode("utf-8", "replace"))
